@@ -47,8 +47,8 @@ def groups(ctx):
     # LIFO-like schedulers re-select a task that answered AGAIN at once: the runtime warns about live-lock with one thread (ll), and
     # hangs were observed with 2 threads under ip and llp (docs/notes/C04.md, 'observed, not analysed'): they run with >= 4 threads
     single = [(c, s, n) for c, s, n in single if not (c < 4 and s in ('ll', 'llp', 'ip'))]
-    gs = [{'nranks': 1, 'cores': c, 'sched': s, 'n': n, 'gen': {'big': not ctx.quick}, 'timeout': 25 if ctx.quick else 90} for c, s, n in single]
-    gs += [{'nranks': r, 'cores': c, 'sched': s, 'n': n, 'gen': {}, 'timeout': 60 if ctx.quick else 240} for r, c, s, n in multi]
+    gs = [{'nranks': 1, 'cores': c, 'sched': s, 'n': n, 'gen': {'big': not ctx.quick, 'tcapi': True}, 'timeout': 25 if ctx.quick else 90} for c, s, n in single]
+    gs += [{'nranks': r, 'cores': c, 'sched': s, 'n': n, 'gen': {'tcapi': True}, 'timeout': 60 if ctx.quick else 240} for r, c, s, n in multi]
     # scripts of the shapes with recorded findings F2 (a datum in several parameters of a task) and F3 (a task inserting tasks with a small
     # window threshold): few and short, so that the KNOWN-FINDING lines keep appearing while the quick tier stays short
     gs += [{'nranks': 1, 'cores': 4, 'sched': 'lfq', 'n': 4 if ctx.quick else 30, 'shape': 'F2', 'timeout': 8},
